@@ -36,6 +36,8 @@ LocalAuthMiddlewarePrivate::LocalAuthMiddlewarePrivate(QObject *parent)
       tokenHeader("X-Auth-Token"),
       token(QUuid::createUuid().toString())
 {
+    // The token must be advertised from the start, not only after setData()
+    data.insert("token", token);
     updateFile();
 }
 
